@@ -146,6 +146,7 @@ class Unit:
                 # against the source (anchor drift otherwise); the body is not read.
                 parts = arg.split()
                 rel, path = parts[0], parts[1].replace('~', ' ')
+                xopts = dict(p.split('=', 1) for p in parts[2:] if '=' in p)
                 i += 1
                 sig_lines = []
                 while i < len(lines) and not re.match(r'\s*//@end\b', lines[i]):
@@ -162,7 +163,7 @@ class Unit:
                 body_text = s.text[s.tok(f['body_open'])[3]:s.tok(f['body_close'])[2]]
                 emit('// ---- ASSUMED contract for %s (%s:%d), body not verified (sha256 %s)\n' % (path, rel, s.line_of(s.tok(f['fn_ci'])[2]), sha256(body_text)[:16]))
                 emit('#[verifier::external_body]\n' + sig_text.rstrip() + '\n{ unimplemented!() }\n')
-                self.assumed.append(dict(file=rel, fn=path, line=s.line_of(s.tok(f['fn_ci'])[2]), body_sha256=sha256(body_text),
+                self.assumed.append(dict(file=rel, fn=path, line=s.line_of(s.tok(f['fn_ci'])[2]), body_sha256=sha256(body_text), proved_in=xopts.get('proved_in'),
                                          clauses=[dict(kind=k, text=re.sub(r'\s+', ' ', t)[:300]) for k, t in clauses]))
                 continue
             raise ExtractError('template error: unknown directive //@%s' % d)
